@@ -3,7 +3,8 @@
 
    The model (Model/PlannerLogs.v) is that of the repository AFTER the repair of D24
    (PLAN_COMPONENT_REGEX anchored to the line, no line breaks in its character class); on that code the
-   property holds at full strength, so there is no _partial/_refuted pair.  The pattern text is compared with
+   property holds at full strength, so there is no _partial/_refuted pair for the current code; the refutation of
+   the pattern as it was before the repair is kept as C19_ff_before_D24_refuted.  The pattern text is compared with
    the imported module's on every run of the check.
 
    Spec (Spec/PlannerLogs.v): render_ff header mcr steps trailer last is a Metric-FF log whose
@@ -11,7 +12,8 @@
    whose step lines carry an optional "step", any indentation of blanks/tabs, a step number of any width, blanks
    around the action, LF or CRLF, and which may end in an unterminated line of any content. *)
 From Coq Require Import List Ascii String.
-From Verif Require Import Base.Result Base.Str Model.PlannerLogs Spec.PlannerLogs Proofs.C19_FF Proofs.C19_Enhsp.
+From Verif Require Import Base.Result Base.Str Model.PlannerLogs Spec.PlannerLogs Proofs.C19_FF Proofs.C19_Enhsp
+  Proofs.C19_Shipped Proofs.C19_Original.
 Import ListNotations.
 
 (* A log containing a plan: status ok, exactly the plan's steps, in order, lower-cased, arguments in order;
@@ -46,7 +48,24 @@ Theorem C19_enhsp : forall steps : list (eolkind * step),
   enhsp_plan_file (render_enhsp steps) = List.concat (map expected_action (map snd steps)).
 Proof. exact C19_enhsp_lemma. Qed.
 
+(* The log shipped in tests/exporters_tests/output.out is a rendering within the hypotheses of C19_ff
+   (Proofs/C19_Shipped.v), so its 19 steps come out by the theorem, not by evaluation. *)
+Theorem C19_shipped_log :
+  get_solving_status (s2t shipped_log) = (StOk, map expected_action (map snd shipped_steps)) /\
+  List.length shipped_steps = 19.
+Proof. exact C19_shipped_log_lemma. Qed.
+
+(* Finding D24 (repaired): with the pattern as it was (Model: parse_plan_content_orig, r"\d: ([\w+\s?-]+)\n")
+   the statement of C19_ff is false inside the same grammar. *)
+Theorem C19_ff_before_D24_refuted :
+  exists header mcr steps trailer last,
+    Forall log_line header /\ steps_ok steps /\ Forall log_line trailer /\ no_lf last /\
+    parse_plan_content_orig (render_ff header mcr steps trailer last) <> map expected_action (map snd steps).
+Proof. exact C19_ff_before_D24_refuted_lemma. Qed.
+
 Print Assumptions C19_ff.
 Print Assumptions C19_ff_noplan.
 Print Assumptions C19_ff_matches.
 Print Assumptions C19_enhsp.
+Print Assumptions C19_shipped_log.
+Print Assumptions C19_ff_before_D24_refuted.
